@@ -36,6 +36,10 @@ Reject(why, exp) == PrintT("REJECT " \o ToJson([l |-> l, why |-> why, ev |-> Ev,
 TNext == /\ l <= NT /\ l' = l + 1 /\ lastOp' = lastOp
          /\ IF Ev.op = "reset" THEN seq' = <<>> /\ max' = 0 /\ skipping' = FALSE /\ vtab' = Ev.vals
             ELSE IF skipping THEN UNCHANGED <<seq, max, skipping, vtab>>
+            ELSE IF Ev.op = "ctor" THEN
+                 \* constructor under allocation failure: a failed constructor leaves nothing allocated (C15)
+                 IF Ev.live = 0 \/ "leak" \notin Owned THEN UNCHANGED <<seq, max, skipping, vtab>>
+                 ELSE PrintT("REJECT " \o ToJson([l |-> l, why |-> {"leak"}, ev |-> Ev, exp |-> "constructor leaked"])) /\ skipping' = TRUE /\ UNCHANGED <<seq, max, vtab>>
             ELSE IF Ev.op \in {"crash", "timeout"} THEN
                  Reject({Ev.op, "result"}, "no action admits this event") /\ skipping' = TRUE /\ UNCHANGED <<seq, max, vtab>>
             ELSE IF Why \cap (Owned \cup {"result", "state", "enomem"}) = {} THEN
